@@ -306,6 +306,16 @@ def words_scope(res, pid, rng, tier):
             if o != ln:
                 fails.append({"kind": "a secret value that is a reserved word was replaced (after a $9$ string with that plaintext)",
                               "history": hist, "line": ln, "output": o})
+    # words of one and two characters are words
+    for ws1_, ln1_ in ((["z", "seattle"], "hostname z-rtr1 site Z zz-top\n"), (["q"], "peer Q qzz q1\n"), (["xy", "k"], "link XY-1 to k9 via xyk\n")):
+        try:
+            o1_, _ = run_lines(fa.FaCfg(salt="one", words=list(ws1_)), [ln1_])
+            res.evaluations += 1
+            left_ = [t_ for t_ in o1_[0].split()[1:] if any(w_ in t_.lower() for w_ in ws1_) and not re.search(r"[0-9a-f]{6}", t_)]
+            if o1_[0] == ln1_ or left_:
+                fails.append({"kind": "a listed sensitive word survives in the output", "sensitive_words": ws1_, "salt": "one", "line": ln1_, "output": o1_[0]})
+        except Exception as e:  # noqa
+            fails.append({"kind": "anonymize raised", "sensitive_words": ws1_, "exc": repr(e)[:200]})
     return dis, fails
 
 
@@ -444,6 +454,11 @@ def hashseed_scope(res, pid, rng, tier):
         for s1_, s2_ in (("Quagga-salt", "zebra-salt"), ("Bsalt", "Rsalt"), ("7salt", "Nsalt"), ("isalt", "Hsalt")):
             reqs.append({"kwargs": dict(anon_pwd=True, anon_ip=False, salt=s2_), "text": l9_, "fresh_ref": True,
                          "before": [dict(anon_pwd=True, anon_ip=False, salt=s1_, run_text=l9_)]})
+        t13_ = "ip address 11.22.33.44 255.255.255.0\nntp server 11.22.33.45\nset address 2001:db8::77\nntp server 20.1.2.3\n"
+        reqs.append({"kwargs": dict(anon_pwd=False, anon_ip=True, salt="verdictSalt"), "text": t13_, "fresh_ref": True,
+                     "before": [dict(anon_pwd=False, anon_ip=True, salt="verdictSalt", preserve_networks=["11.22.33.0/24", "20.0.0.0/8"], run_text=t13_)]})
+        reqs.append({"kwargs": dict(anon_pwd=False, anon_ip=True, salt="verdictSalt", preserve_networks=["11.22.33.0/24"]), "text": t13_, "fresh_ref": True,
+                     "before": [dict(anon_pwd=False, anon_ip=True, salt="verdictSalt", run_text=t13_)]})
         reqs.append({"kwargs": dict(anon_pwd=True, anon_ip=False, salt="memoSalt"), "text": "username y password 0 otherAkey%d\n" % res.seed, "fresh_ref": True,
                      "before": [dict(anon_pwd=True, anon_ip=False, salt="memoSalt", run_text=l9_ + "username y password 0 otherAkey%d\n" % res.seed)]})
     base = [dict(r, before=[]) for r in reqs]
@@ -733,6 +748,17 @@ def as_scope(res, pid, rng, tier):
                           "as_numbers": nums0, "generated_salt": a0.salt, "output": o0.getvalue()[:300], "output_of_a_run_with_that_salt": o1.getvalue()[:300]})
     except Exception as e:  # noqa
         fails.append({"kind": "AS anonymization without a salt raised", "as_numbers": nums0, "exc": repr(e)[:200]})
+    # the smallest number alone in the list
+    for only_ in ("0", "1"):
+        try:
+            oz_, _ = run_lines(fa.FaCfg(salt="zero", asn=[only_]), ["router bgp %s\n" % only_, " neighbor 192.168.7.9 remote-as %s ! %s0 0%s\n" % (only_, only_, only_)])
+            res.evaluations += 2
+            mz_ = re.fullmatch(r"router bgp (\d+)\n", oz_[0])
+            if not mz_ or mz_.group(1) == only_ or not 0 <= int(mz_.group(1)) < 64512 or oz_[1] != " neighbor 192.168.7.9 remote-as %s ! %s0 0%s\n" % (mz_.group(1), only_, only_):
+                fails.append({"kind": "text outside listed standalone numbers changed, or a listed standalone number was not replaced", "as_numbers": [only_], "salt": "zero",
+                              "lines": ["router bgp %s" % only_, " neighbor 192.168.7.9 remote-as %s ! %s0 0%s" % (only_, only_, only_)], "outputs": oz_})
+        except Exception as e:  # noqa
+            fails.append({"kind": "AS anonymization raised", "as_numbers": [only_], "exc": repr(e)[:200]})
     # library use: the caller goes on using (and changing) the list object it handed over; the anonymizer follows the values it was given
     from netconan.sensitive_item_removal import anonymize_as_numbers as _aan
     for edit in ("clear", "append", "replace"):
@@ -851,6 +877,20 @@ def fixed_lines_probe(res, fails):
     words = ["acme.net", "a+b", "x(y", "co$t", "q[1]", "w|z", "back\\slash", "st*r", "h?t", "c^t"]
     tok_lines = ["peer acme-net acmeXnet acme_net acmenet aab ab xy cot q1 w z wz backslash str sr ht hot ct c.t end",
                  "description acme/net a.b x{y co-t q[2] st-r h.t"]
+    odd += [" wpa-passphrase MySecretKey", " wpa-psk ascii 0 KEY12345", " wpa-psk hex 0123456789abcdef", "passphrase foo", " psk bar", "auth-key baz", "key-string qux",
+            " wpa-passphrase", "tacacs-server key", "radius-server key 7", "enable secret", "snmp-server community", "set community \"\""]
+    # a word list with blank entries (as `-w "acmecorp, ,zebra"` gives): a blank is not a word of any token
+    try:
+        objb = FileAnonymizer(anon_pwd=False, anon_ip=False, salt="fx", sensitive_words=["acmecorp", " ", "\t", "zebra", "  "])
+        ob_ = io.StringIO()
+        lb_ = "interface GigabitEthernet0/1\n description uplink to core switch\n"
+        objb.anonymize_io(io.StringIO(lb_), ob_)
+        res.evaluations += 2
+        if ob_.getvalue() != lb_:
+            fails.append({"kind": "a token that contains no listed sensitive word was changed (the list has blank entries)", "sensitive_words": ["acmecorp", " ", "\t", "zebra", "  "],
+                          "input": lb_, "output": ob_.getvalue()[:300]})
+    except Exception as e:  # noqa
+        fails.append({"kind": "processing a line raised %s" % type(e).__name__, "sensitive_words": ["acmecorp", " ", "\t", "zebra", "  "], "exc": repr(e)[:200]})
     try:
         obj = FileAnonymizer(anon_pwd=True, anon_ip=True, salt="fx", sensitive_words=list(words))
     except Exception as e:  # noqa
